@@ -67,7 +67,7 @@ theorem handout_alive (s s' : State) (a : Action) (h : step cfgOfSource s a = so
 /-- The driver's executable monitor (limit + holder clauses) follows from the invariant. -/
 theorem monitor_limit_holders (m n : Nat) (s : State) (h : Reachable m n s) :
     (s.total == liveCount s + nReserved s) = true ∧ (s.max == 0 || decide (s.total ≤ s.max)) = true ∧
-    ∀ c, c < s.conns.length → holders s c ≤ 1 ∧ (isDead s c = true ∨ holders s c = 1) := by
+    ∀ c, c < s.conns.length → holders s c ≤ 1 ∧ (isDead s c = true ∨ s.closed = true ∨ holders s c = 1) := by
   have hI := reachable_inv h
   refine ⟨by simp [hI.tot], ?_, ?_⟩
   · by_cases hm : s.max = 0
@@ -78,7 +78,10 @@ theorem monitor_limit_holders (m n : Nat) (s : State) (h : Reachable m n s) :
     have hx : s.conns[c]? = some s.conns[c] := List.getElem?_eq_getElem hc
     cases hd : (s.conns[c]).dead with
     | true => left; simp [isDead, hx, hd]
-    | false => right; exact hI.live c _ hx hd
+    | false =>
+      cases hcl : s.closed with
+      | true => right; left; rfl
+      | false => right; right; exact hI.live hcl c _ hx hd
 
 /-- The complete executable monitor `holdsB` that the drivers evaluate on every state of every replayed
 implementation trace holds in every reachable state (limit, total, holders, live reader and valid id of
@@ -99,7 +102,8 @@ theorem holdsB_reachable (m n : Nat) (s : State) (h : Reachable m n s) : holdsB 
   · intro c hc
     obtain ⟨a, b⟩ := h3 c hc
     refine ⟨a, ?_⟩
-    rcases b with b | b
+    rcases b with b | b | b
+    · simp [b]
     · simp [b]
     · simp [b]
   · intro e he
